@@ -407,6 +407,47 @@ def run_tail(case):
     return part
 
 
+def run_tail_idle(case):
+    """no socket_timeout, idle_timeout set: a download is over for the server while its tail is still unsent (the data
+    peer does not read), the peer may make another data connection, then says nothing more - when the session is
+    dropped for idleness the data sockets go with it"""
+    idle, sock, wf = case["cfg"]
+    part = report.Partial()
+    rig = Rig(n_sessions=1, tree=corpus.TREE, window=4096, advance=0,
+              server_kwargs={"block_size": 4, "idle_timeout": idle, "socket_timeout": sock, "wait_future_timeout": wf})
+    problems = []
+    try:
+        w = rig.world
+        w.net.sndbuf = case["sndbuf"]
+        s = rig.sessions[0]
+        events = ["@connect", "USER anonymous", "EPSV", "@data", "@dstop", case["verb"]] + list(case.get("then", []))
+        for n, e in enumerate(events):
+            w.advance_to(n * GAP)
+            rig.ev(0, e)
+        t_last = (len([e for e in events if not e.startswith("@")]) and max(n for n, e in enumerate(events) if not e.startswith("@"))) * GAP
+        data_t = [t for t in w.net.all_transports if t.side == "server" and t.get_extra_info("sockname")[1] != 2121]
+        w.advance_to(t_last + idle + 2)
+        held = [t.name for t in data_t if t.held()]
+        if held:
+            problems.append({"kind": "data-socket-outlives-the-session-dropped-for-idleness", "sockets": held,
+                             "session_dropped_at": t_last + idle})
+        conns = ledger.live_connections(rig.server)
+        if conns:
+            problems.append({"kind": "session-not-dropped-at-idle-timeout", "n": len(conns)})
+        part.evaluations += 1
+        part.traces += 1
+        part.transitions += w.net.n_events
+        part.states.add(report.fp(["tail-idle", case]))
+        part.nontrivial.add(report.fp(["tail-idle", case]))
+        part.outcomes[report.fp(["tail-idle", [p["kind"] for p in problems]])] += 1
+        for p in problems:
+            part.violation({"kind": p["kind"], "script": "tail-idle:" + case["verb"], "stall": "noread", "cfg": list(case["cfg"])},
+                           {"problem": p, "case": case}, replay={"case": case, "choices": [], "kinds": []})
+    finally:
+        rig.close()
+    return part
+
+
 def run_trickle(case):
     """a download is blocked in one write (the block is larger than the transport's buffer limits); the data peer takes
     a few bytes of it - not enough for the writer to go on - and then nothing any more: the connection has stopped
@@ -589,6 +630,8 @@ def _work(item):
         return run_trickle(case)
     if case.get("backlog"):
         return run_backlog(case)
+    if case.get("tail_idle"):
+        return run_tail_idle(case)
     try:
         for ch, res in explore(lambda c: run_stall(case, c), bound, kinds=kinds, max_exec=3000):
             if ch is None:
@@ -623,6 +666,11 @@ def build_items(tier):
                 items.append(({"tail": True, "cfg": list(cfg), "verb": verb, "sndbuf": sndbuf}, 0, []))
         for n in (40, 1500, 5000):
             items.append(({"backlog": True, "cfg": list(cfg), "n": n}, 0, []))
+        if cfg[0] is not None and cfg[1] is None:
+            for verb in ("RETR d/f", "LIST", "MLSD d"):
+                for then in ([], ["@data"], ["@data", "LIST d"], ["PWD"], ["@data", "PWD", "@data"]):
+                    for sndbuf in (0, 4):
+                        items.append(({"tail_idle": True, "cfg": list(cfg), "verb": verb, "then": then, "sndbuf": sndbuf}, 0, []))
         if cfg[1] is not None:
             # the peer takes a little of a blocked write and then stops for good
             for takes in ([(0.5, 1)], [(0.25, 8)], [(0.75, 40)], [(0.25, 1), (0.5, 1)], [(0.5, 59)], []):
@@ -678,6 +726,10 @@ def replay(path):
     rp = data["replay"]
     if rp["case"].get("two_waiting"):
         part = run_two_waiting(rp["case"])
+        print(json.dumps([v for v in part.violations], indent=1, default=repr))
+        return 1 if part.violations else 0
+    if rp["case"].get("tail_idle"):
+        part = run_tail_idle(rp["case"])
         print(json.dumps([v for v in part.violations], indent=1, default=repr))
         return 1 if part.violations else 0
     if rp["case"].get("backlog"):
